@@ -102,7 +102,7 @@ def registry():
     """name -> (make(g) -> (ctor, kwargs, defaults_kwargs|None), {param: [perturbations]})"""
     import numpy as np
     import commonroad.scenario.state as st
-    from commonroad.common.common_lanelet import StopLine
+    from commonroad.common.common_lanelet import LineMarking, StopLine
     from commonroad.common.util import AngleInterval, Interval, Time
     from commonroad.geometry.shape import Circle, Polygon, Rectangle, ShapeGroup
     from commonroad.planning.goal import GoalRegion
@@ -253,6 +253,11 @@ def registry():
         g.stop_line_kw(False))),
         {"start": arr_both, "end": arr_both, "line_marking": [p_enum], "traffic_sign_ref": [p_set_add()],
          "traffic_light_ref": [p_set_add()]})
+    R["StopLine.pointless"] = (lambda g: (StopLine, {"start": None, "end": None, "line_marking": g.enum(LineMarking),
+                                                   "traffic_sign_ref": g.idset(), "traffic_light_ref": g.idset()},
+                                          {"start": None, "end": None, "line_marking": LineMarking.SOLID}),
+                               {"line_marking": [p_enum], "traffic_sign_ref": [p_set_add()],
+                                "start": [lambda g, v: np.array([1.0, 2.0])]})
     lan_p = {"left_vertices": [p_arr(1e-6, (0, 1)), p_arr(0.5, (1, 1))], "center_vertices": [p_arr(1e-6, (0, 1)),
                                                                                               p_arr(0.5, (1, 0))],
              "right_vertices": [p_arr(1e-6, (1, 1)), p_arr(0.5, (0, 0))], "lanelet_id": [p_int],
